@@ -17,7 +17,7 @@ func init() {
 			Explanation: "Decides the ABSENCE OF A FIXED CATALOGUE OF CRASH SHAPES on the module functions reachable (VTA call graph, library callbacks followed) from the network entry points (Node.processRPC, pull, fastForward, join, NetworkTransport.handleConn): " +
 				"C08.sink (every call to ecdsa.Verify is reached only with pub, pub.X, pub.Y, r, s tested non-nil), C08.parse (a dropped failure indicator of (*big.Int).SetString / keys.DecodeSignature never precedes a dereference or escape of the value), " +
 				"C08.const (no constant index / constant slice bound on a string or slice that is not guarded by a length test), C08.bounds (a wire-controlled integer reaches a slice bound only with an upper and a lower guard), " +
-				"C08.range (the store API that receives wire-controlled integers unchecked — RollingIndex.Get / GetItem / Set, reached with SyncRequest.Known values and wire event indexes — indexes and slices its window only at positions PROVED within [0, len] from the guards on every path, by linear entailment (Fourier–Motzkin on the path's comparison literals), for arbitrary integer arguments), C08.shape (a fast-forward response passes a shape validation — nil elements of Peers / PeerSets / Roots / Events, nil Core, Parents of length 2, nil signature map — before its contents are used), " +
+				"C08.range (EVERY dynamic index and slice bound in the packages that handle gossip input (node, hashgraph, peers, common, crypto, net) is PROVED within [0, len] on every acyclic path by linear entailment — Fourier–Motzkin over the path's comparison literals, loop-induction bounds, len(make(n)) = n, division / remainder by constants, phi equalities at joins — for arbitrary integer arguments; in particular the rolling caches RollingIndex.Get / GetItem / Set that are indexed by wire-supplied SyncRequest.Known values and wire event indexes. Sort callbacks (indexes supplied by package sort) are skipped and ten functions whose bound is not a linear fact are exempt by name with the reason in the evidence notes), C08.shape (a fast-forward response passes a shape validation — nil elements of Peers / PeerSets / Roots / Events, nil Core, Parents of length 2, nil signature map — before its contents are used), " +
 				"C08.dispatch (unknown command bytes / types are answered with an error, nothing is dispatched undecoded), C08.respond (a join promise is removed right after it was answered; no defer inside loops of network-reachable code). " +
 				"NOT decided: general panic-freedom, resource exhaustion by oversized inputs, data races, 'never alters committed history' (covered structurally by C02.frozen, C07, C09, C12)."},
 		Rules: []ruleFunc{c08sink, c08parse, c08const, c08bounds, c08range, c08shape, c08dispatch, c08respond},
@@ -973,58 +973,130 @@ func c08respond(p *Prog, r *Report) {
 	r.Check(len(bad) == 0, rule, "network-reachable:no-defer-in-loop", "-", "", fmt.Sprintf("%d network-reachable functions scanned", nf), "defer inside a loop (runs only at function exit, once per iteration accumulated): "+strings.Join(bad, ", "))
 }
 
-
 // C08.range: the audited store API. Wire integers (SyncRequest.Known values, WireBody indexes)
 // reach RollingIndex.Get / GetItem / Set without any check by the callers; these functions must
 // therefore be total: every dynamic index / slice bound on the window is proved in range.
+// rangeExempt: functions whose dynamic indexes are NOT decided by the linear prover, with the reason
+// (read and confirmed by hand; the obligation is reported as exempt, not as proved).
+var rangeExempt = map[string]string{
+	"(*src/common.LRU).Keys":                     "index counts the elements of evictList, allocation is len(items): equal by the LRU invariant (list and map hold the same entries), not a linear fact",
+	"(*src/common.testLoggerAdapter).Write":      "test logging helper, not reachable from gossip input",
+	"(src/common.Trilean).String":                "index is a Trilean constant (0..2) into a 3-element array; callers only use the three declared constants",
+	"src/crypto/keys.readBits":                   "i is decremented only under i > 0 in the conjunctive loop condition (short-circuit form not seen as a branch literal on this path)",
+	"(*src/hashgraph.Block).GetSignatures":       "one slot per map entry: index counts range iterations over the map whose len sized the slice",
+	"(*src/hashgraph.Event).WireBlockSignatures": "make(len(x)) then range over x: sized by the ranged slice (field re-read through another pointer load)",
+	"(*src/hashgraph.WireEvent).BlockSignatures": "make(len(x)) then range over x: sized by the ranged slice (field re-read through another pointer load)",
+	"(*src/node.randomPeerSelector).next":        "rand.Intn(n) lies in [0,n): library contract, n = len(selectable) > 0 checked above",
+	"(*src/common.RollingIndex).roll":            "size/2 <= len(items) holds at its only call site (len(items) >= size, Set): interprocedural precondition",
+	"(*src/node.Node).push":                      "slice bound is the operator's own SyncLimit configuration (clamped by C08.bounds for the wire-supplied limit)",
+}
+
+// C08.range: every dynamic index / slice bound in the packages that handle gossip input is proved
+// within bounds on every path by linear entailment from the path guards (loop induction bounds,
+// len(make(n)) = n, division by constants included), for ARBITRARY integer inputs; sort callbacks
+// (index arguments supplied by package sort) and the functions of rangeExempt are listed, not proved.
 func c08range(p *Prog, r *Report) {
 	const rule = "C08.range"
-	r.Rule(rule, 3, "RollingIndex.Get/GetItem/Set: every dynamic index or slice bound on items is within [0,len] on every path, for arbitrary integer arguments (linear entailment from the path guards)")
-	n := 0
+	r.Rule(rule, 40, "every dynamic index or slice bound in the gossip-input packages is within [0,len] on every path, for arbitrary integer arguments (linear entailment from the path guards); RollingIndex.Get/GetItem/Set — indexed by wire-supplied Known values — must be among the proved")
+	n, exempt, sortcb := 0, 0, 0
+	proved := map[string]int{}
+	var fns []*ssa.Function
+	for _, fn := range p.Mod {
+		if inGossipScope(fnPkgPath(fn)) {
+			fns = append(fns, fn)
+		}
+	}
+	sort.Slice(fns, func(i, j int) bool { return fnName(fns[i]) < fnName(fns[j]) })
+	for _, fn := range fns {
+		name := fnName(fn)
+		if isSortCallback(fn) {
+			sortcb++
+			continue
+		}
+		k := 0
+		check := func(at ssa.Instruction, idx, base ssa.Value, slack int64, what string) {
+			if _, isC := intConst(idx); isC {
+				// constant index into a slice: needs a length guard (C08.const decides those)
+				return
+			}
+			k++
+			if why, ex := rangeExempt[name]; ex {
+				exempt++
+				r.Note("%s: exempt %s %s#%d: %s", rule, name, what, k, why)
+				return
+			}
+			n++
+			ok, why := p.proveInRange(at, idx, base, slack)
+			if ok {
+				proved[name]++
+			}
+			short := fn.Name()
+			if fn.Signature.Recv() != nil {
+				short = recvNamedSig(fn) + "." + fn.Name()
+			}
+			r.Check(ok, rule, fmt.Sprintf("%s:%s#%d", short, what, k), p.ipos(at), name, what+" proved in range ("+why+")",
+				what+" not proved in range: "+why+" — an out-of-range index panics the goroutine (for the rolling caches the index is a wire-supplied Known value / event index)")
+		}
+		for _, b := range fn.Blocks {
+			for _, in := range b.Instrs {
+				switch x := in.(type) {
+				case *ssa.Slice:
+					if _, isStr := x.X.Type().Underlying().(*types.Basic); isStr {
+						// string slicing: same rule
+					}
+					for _, bnd := range []ssa.Value{x.Low, x.High} {
+						if bnd != nil {
+							check(x, bnd, x.X, 0, "slice-bound")
+						}
+					}
+				case *ssa.IndexAddr:
+					check(x, x.Index, x.X, -1, "index")
+				case *ssa.Index:
+					check(x, x.Index, x.X, -1, "index")
+				}
+			}
+		}
+	}
 	for _, m := range []string{"Get", "GetItem", "Set"} {
 		fn := p.Func(COMM, "RollingIndex", m)
 		if fn == nil {
 			r.Anchor(rule, "common.(*RollingIndex)."+m)
 			continue
 		}
-		k := 0
-		for _, b := range fn.Blocks {
+		r.Check(proved[fnName(fn)] > 0, rule, "RollingIndex."+m+":has-proved-index", p.pos(fn.Pos()), fnName(fn), "its window index is among the proved sites", "RollingIndex."+m+" has no proved dynamic index (the rule would be vacuous for the wire-indexed cache)")
+	}
+	r.Note("%s: %d dynamic index sites decided by the prover, %d exempt (listed), %d sort callbacks skipped", rule, n, exempt, sortcb)
+}
+
+// isSortCallback: Less/Swap of a sort.Interface implementation, or a closure passed to sort.Slice*.
+func isSortCallback(fn *ssa.Function) bool {
+	if fn.Signature.Recv() != nil && (fn.Name() == "Less" || fn.Name() == "Swap") {
+		return true
+	}
+	if fn.Parent() != nil {
+		if refs := fn.Referrers(); refs != nil {
+			_ = refs
+		}
+		for _, b := range fn.Parent().Blocks {
 			for _, in := range b.Instrs {
-				switch x := in.(type) {
-				case *ssa.Slice:
-					if fv, _ := fieldOf(x.X); fv == nil || fv.Name() != "items" {
-						continue
+				c, ok := in.(*ssa.Call)
+				if !ok {
+					continue
+				}
+				f := calleeFunc(c.Common())
+				if f == nil || f.Pkg() == nil || f.Pkg().Path() != "sort" {
+					continue
+				}
+				for _, a := range c.Call.Args {
+					if mc, ok := unwrap(a).(*ssa.MakeClosure); ok && mc.Fn == ssa.Value(fn) {
+						return true
 					}
-					for _, bnd := range []ssa.Value{x.Low, x.High} {
-						if bnd == nil {
-							continue
-						}
-						if _, isC := intConst(bnd); isC {
-							continue
-						}
-						n++
-						k++
-						ok, why := p.proveInRange(x, bnd, x.X, 0)
-						r.Check(ok, rule, fmt.Sprintf("RollingIndex.%s:slice-bound#%d", m, k), p.ipos(x), fnName(fn), "slice bound proved within [0, len(items)] ("+why+")",
-							"slice bound on the rolling window not proved in range: "+why+" — a wire-controlled index (e.g. a Known value below -1 in a sync request) slices out of range and the goroutine panics")
+					if a == ssa.Value(fn) {
+						return true
 					}
-				case *ssa.IndexAddr:
-					if fv, _ := fieldOf(x.X); fv == nil || fv.Name() != "items" {
-						continue
-					}
-					if _, isC := intConst(x.Index); isC {
-						continue
-					}
-					n++
-					k++
-					ok, why := p.proveInRange(x, x.Index, x.X, -1)
-					r.Check(ok, rule, fmt.Sprintf("RollingIndex.%s:index#%d", m, k), p.ipos(x), fnName(fn), "index proved within [0, len(items)) ("+why+")",
-						"index into the rolling window not proved in range: "+why)
 				}
 			}
 		}
 	}
-	if n == 0 {
-		r.Fail(rule, "RollingIndex:dynamic-indexes", "-", "", "no dynamic index on RollingIndex.items found")
-	}
+	return false
 }
